@@ -10,6 +10,7 @@ import (
 	"fmt"
 	"os"
 	"path/filepath"
+	"runtime"
 	"sort"
 	"strings"
 	"sync"
@@ -349,6 +350,21 @@ func c06concurrent(w *W, policy string, cap, prefill, P, opsEach int, ci int) (s
 		appendEvent(l, log.InfoLevel, id)
 		prefilled = append(prefilled, id) // sequential, before any concurrency: the model's initial state
 	}
+	// the producers are lined up at the yield point just before the enqueue attempt, so that they compete
+	// for the last free slots at the same moment
+	var arrivals atomic.Int64
+	prevFn := log.VerifPointFn
+	log.VerifPointFn = func(name string) {
+		prevFn(name)
+		if name == "async.append.before" || name == "async.write.before" {
+			n := arrivals.Add(1)
+			target := (n + int64(P) - 1) / int64(P) * int64(P)
+			for t0 := time.Now(); arrivals.Load() < target && time.Since(t0) < 2*time.Millisecond; {
+				runtime.Gosched()
+			}
+		}
+	}
+	defer func() { log.VerifPointFn = prevFn }()
 	subs := make([][]string, P)
 	var wg sync.WaitGroup
 	start := make(chan struct{})
@@ -455,8 +471,8 @@ func c06concurrent(w *W, policy string, cap, prefill, P, opsEach int, ci int) (s
 			}
 		}
 	}
-	if policy != "Block" && P*opsEach <= 12 {
-		res := porcupine.CheckOperationsTimeout(c06porcupine(policy, cap, prefilled), ops, 10*time.Second)
+	if policy != "Block" && P*opsEach <= 9 {
+		res := porcupine.CheckOperationsTimeout(c06porcupine(policy, cap, prefilled), ops, 5*time.Second)
 		w.Count("porcupine_"+string(res), 1)
 		switch res {
 		case porcupine.Illegal:
@@ -775,7 +791,7 @@ func init() {
 			}
 			for i := 0; i < 4; i++ {
 				s := d.NewSpec("concurrent", fmt.Sprintf("conc-%d", i), 20+i, 12)
-				s.N = d.Pick(30, 500)
+				s.N = d.Pick(150, 1500)
 				s.TimeoutS = 3000
 				specs = append(specs, s)
 			}
